@@ -53,6 +53,16 @@ structure LoopInv (fx : Fixes) (st : Loop) (r : Nat) : Prop where
   sig : st.cancelled = true → st.pre.any isSig = true
   dead : fx.d = true → st.dead = false
   res : fx.d = true → st.res.all (· != .panic) = true
+  /-- apart from reload events the loop contributes the stop signal, if it arrived inside a round -/
+  rest : st.pre.filter (fun e => !isReload e) = if st.cancelled then [Ev.sig] else []
+
+theorem filter_nonReload_of_kinds {l : List Ev} (h : kindsIn [.reload] l) :
+    l.filter (fun e => !isReload e) = [] := by
+  apply List.filter_eq_nil_iff.mpr
+  intro e he
+  have := h e he
+  simp only [List.mem_singleton] at this
+  simp [kind_isReload e this]
 
 theorem LoopInv.init (fx : Fixes) : LoopInv fx ⟨[], [], false, false, []⟩ 0 where
   preK := kindsIn_nil _
@@ -63,6 +73,7 @@ theorem LoopInv.init (fx : Fixes) : LoopInv fx ⟨[], [], false, false, []⟩ 0 
   sig := by intro h; cases h
   dead := fun _ => rfl
   res := fun _ => rfl
+  rest := rfl
 
 theorem roundRes_ne_panic (fx : Fixes) (h : fx.d = true) (beh : List HB) (n : Nat) :
     (roundRes fx beh n != .panic) = true := by
@@ -100,11 +111,11 @@ theorem LoopInv.step (fx : Fixes) (n : Nat) (st : Loop) (r : Nat) (rd : Round) (
   unfold roundStep
   by_cases hcd : (st.cancelled || st.dead) = true
   · simp only [hcd, if_true]
-    exact ⟨h.preK, h.postK, lt', h.sorted, h.post, h.sig, h.dead, resNa⟩
+    exact ⟨h.preK, h.postK, lt', h.sorted, h.post, h.sig, h.dead, resNa, h.rest⟩
   · simp only [hcd, Bool.false_eq_true, if_false]
     by_cases hh : (rd.trig == Trig.hup && n == 0) = true
     · simp only [hh, if_true]
-      exact ⟨h.preK, h.postK, lt', h.sorted, h.post, h.sig, h.dead, resNa⟩
+      exact ⟨h.preK, h.postK, lt', h.sorted, h.post, h.sig, h.dead, resNa, h.rest⟩
     · simp only [hh, Bool.false_eq_true, if_false]
       have hc : st.cancelled = false := by
         cases hx : st.cancelled
@@ -130,37 +141,49 @@ theorem LoopInv.step (fx : Fixes) (n : Nat) (st : Loop) (r : Nat) (rd : Round) (
         · rw [hr x hx]; exact Nat.lt_succ_self _
       have fullS : (ids st.pre ++ ids (reloadEvs r (ran rd.beh n) 0)).Pairwise (· ≤ ·) :=
         sorted_snoc_round hlt0 hs0 hr
+      have hrest0 : st.pre.filter (fun e => !isReload e) = [] := by
+        have := h.rest; rw [hc] at this; simpa using this
+      have hf0 := filter_nonReload_of_kinds hk
+      have hft : ∀ c, (List.take c (reloadEvs r (ran rd.beh n) 0)).filter (fun e => !isReload e) = [] :=
+        fun c => filter_nonReload_of_kinds (kindsIn_take hk c)
+      have hfd : ∀ c, (List.drop c (reloadEvs r (ran rd.beh n) 0)).filter (fun e => !isReload e) = [] :=
+        fun c => filter_nonReload_of_kinds (kindsIn_drop hk c)
+      have hfs : [Ev.sig].filter (fun e => !isReload e) = [Ev.sig] := rfl
       split
       · -- SIGHUP round, no signal inside
-        refine ⟨kindsIn_append h.preK hk', h.postK, ?_, ?_, ?_, ?_, ?_, resNa⟩
+        refine ⟨kindsIn_append h.preK hk', h.postK, ?_, ?_, ?_, ?_, ?_, resNa, ?_⟩
         · rw [hpost, ids_nil, List.append_nil, ids_append]; exact full
         · rw [hpost, ids_nil, List.append_nil, ids_append]; exact fullS
         · intro _; exact hpost
         · intro hx; simp [hc] at hx
         · intro hd; exact roundPanics_false fx hd _ _
+        · simp only [List.filter_append, hrest0, hf0, hc, List.nil_append, Bool.false_eq_true, if_false]
       · -- SIGHUP round, the signal arrives in hook j
         rename_i c _
-        refine ⟨?_, h.postK, ?_, ?_, ?_, ?_, ?_, resNa⟩
+        refine ⟨?_, h.postK, ?_, ?_, ?_, ?_, ?_, resNa, ?_⟩
         · exact kindsIn_append (kindsIn_append (kindsIn_append h.preK (kindsIn_take hk' _)) hsig) (kindsIn_drop hk' _)
         · rw [hpost, ids_nil, List.append_nil, ids_splice]; exact full
         · rw [hpost, ids_nil, List.append_nil, ids_splice]; exact fullS
         · intro hx; cases hx
         · intro _; simp [isSig]
         · intro hd; exact roundPanics_false fx hd _ _
+        · simp only [List.filter_append, hrest0, hft, hfd, hfs, List.nil_append, List.append_nil, if_true]
       · -- programmatic round, no signal inside
-        refine ⟨kindsIn_append h.preK hk', h.postK, ?_, ?_, ?_, ?_, h.dead, resR⟩
+        refine ⟨kindsIn_append h.preK hk', h.postK, ?_, ?_, ?_, ?_, h.dead, resR, ?_⟩
         · rw [hpost, ids_nil, List.append_nil, ids_append]; exact full
         · rw [hpost, ids_nil, List.append_nil, ids_append]; exact fullS
         · intro _; exact hpost
         · intro hx; simp [hc] at hx
+        · simp only [List.filter_append, hrest0, hf0, hc, List.nil_append, Bool.false_eq_true, if_false]
       · -- programmatic round, the signal arrives in hook j: the rest of the round runs after Start returned
         rename_i c _
-        refine ⟨?_, kindsIn_drop hk _, ?_, ?_, ?_, ?_, h.dead, resR⟩
+        refine ⟨?_, kindsIn_drop hk _, ?_, ?_, ?_, ?_, h.dead, resR, ?_⟩
         · exact kindsIn_append (kindsIn_append h.preK (kindsIn_take hk' _)) hsig
         · rw [ids_splice2]; exact full
         · rw [ids_splice2]; exact fullS
         · intro hx; cases hx
         · intro _; simp [isSig]
+        · simp only [List.filter_append, hrest0, hft, hfs, List.nil_append, if_true]
 
 theorem LoopInv.rounds (fx : Fixes) (n : Nat) (st : Loop) (r : Nat) (rds : List Round) (h : LoopInv fx st r) :
     ∃ r', LoopInv fx (roundsFrom fx n st r rds) r' := by
